@@ -93,6 +93,25 @@ class P(Prop):
                 kind, i, b = perturb(rng, a, eps, rel) if (n < 2 or rng.random() < 0.8) else perturb_many(rng, a, eps, rel)
                 out.append(dict(op="approx", ty=ty, a=[C.bits(x) for x in a], b=[C.bits(x) for x in b], eps=C.bits(eps), rel=C.bits(rel),
                                 meta={"class": "approx/" + kind}))
+        # an infinite number in ONE lane (every lane of every type over a few runs): equal infinities are relatively equal, an infinity
+        # is never relatively equal to anything else, and inf - inf is NaN for abs_diff_eq
+        for ty in TYPES:
+            n = G.arity(ty)
+            for _ in range(2 if tier == "quick" else 12):
+                eps, rel = tolerances(rng)
+                a = [rng.choice([rng.uniform(-3, 3), 1.0, 0.0]) for _ in range(n)]
+                i = rng.randrange(n)
+                a[i] = rng.choice([INF, -INF])
+                b = list(a)
+                kind = rng.choice(["same_inf", "same_inf", "inf_vs_finite", "opposite_inf", "finite_vs_inf"])
+                if kind == "inf_vs_finite":
+                    b[i] = rng.choice([1.0, 1e300, -2.5])
+                elif kind == "opposite_inf":
+                    b[i] = -a[i]
+                elif kind == "finite_vs_inf":
+                    a[i], b[i] = rng.choice([1.0, 1e300]), a[i]
+                out.append(dict(op="approx", ty=ty, a=[C.bits(x) for x in a], b=[C.bits(x) for x in b], eps=C.bits(eps), rel=C.bits(max(rel, 1e-3)),
+                                meta={"class": "approx/infinite_lane/" + kind}))
         for _ in range(40 if tier == "quick" else 600):
             ty = rng.choice(G.ALL_TYPES)
             n = G.arity(ty)
